@@ -1074,6 +1074,50 @@ func (e *absEnv) stdCall(fr *absFrame, name string, args []aval, depth int) (ava
 		return nil, false
 	}
 	switch base {
+	case "sort.Sort", "sort.Stable":
+		// an insertion sort driven by the value's own Len / Less / Swap (the order produced by any correct sort is the
+		// same up to ties; ties keep their relative order here)
+		ifc, ok := args[0].(aiface)
+		if !ok || fr == nil {
+			return nil, false
+		}
+		method := func(name string, margs ...aval) (aval, bool) {
+			if e.ext != nil {
+				if v, ok := e.ext("invoke:"+name, append([]aval{ifc}, margs...)); ok {
+					return v, true
+				}
+			}
+			sel := types.NewMethodSet(ifc.typ).Lookup(nil, name)
+			if sel == nil {
+				return nil, false
+			}
+			m := fr.fn.Prog.MethodValue(sel)
+			if m == nil || len(m.Blocks) == 0 {
+				return nil, false
+			}
+			return e.call(m, append([]aval{ifc.val}, margs...), nil, depth+1), true
+		}
+		lv, ok := method("Len")
+		n, isInt := lv.(aint)
+		if !ok || !isInt {
+			return nil, false
+		}
+		for i := int64(1); i < int64(n); i++ {
+			for j := i; j > 0; j-- {
+				lt, ok := method("Less", aint(j), aint(j-1))
+				b, isB := lt.(abool)
+				if !ok || !isB {
+					e.abort("sort: Less(%d,%d) is %s", j, j-1, describeAval(lt))
+				}
+				if !bool(b) {
+					break
+				}
+				if _, ok := method("Swap", aint(j), aint(j-1)); !ok {
+					return nil, false
+				}
+			}
+		}
+		return atuple{}, true
 	case "fmt.Errorf", "errors.New":
 		// a freshly made error: some non-nil error value
 		return aiface{aptr{&aobj{name: "error made by " + base, typ: types.Typ[types.Int], f: map[string]aval{}}, ""}, types.Typ[types.Int]}, true
